@@ -100,6 +100,11 @@ LongTok(body, specs) ==
             need |-> specs[k].arity = "req" /\ ~LongHasVal(body),
             unspec |-> specs[k].arity = "no" /\ LongHasVal(body)]              \* Unspecified (1)
 
+\* The package reports the name of a short option as a rune: a byte that is not valid UTF-8 can
+\* only be reported as U+FFFD.
+MaxRune == 1114111
+ShortName(c) == IF c > MaxRune THEN 65533 ELSE c
+
 (* ---- a chain of short options: body is the text after the dash (non-empty), from position j.
         When need holds the last option of opts is the pending one. unkrest: Unspecified (4) *)
 RECURSIVE ShortFrom(_, _, _)
@@ -115,7 +120,7 @@ ShortFrom(body, j, specs) ==
       ELSE IF k # 0
       THEN [opts |-> <<Opt(k, FALSE, <<c>>, tail)>>,
             need |-> specs[k].arity = "req" /\ tail = <<>>, unkrest |-> FALSE]
-      ELSE [opts |-> <<Opt(0, FALSE, <<c>>, tail)>>, need |-> FALSE, unkrest |-> tail # <<>>]
+      ELSE [opts |-> <<Opt(0, FALSE, <<ShortName(c)>>, tail)>>, need |-> FALSE, unkrest |-> tail # <<>>]
 ShortTok(body, specs) == ShortFrom(body, 1, specs)
 
 (* ---- the scanner ---- *)
@@ -209,6 +214,25 @@ CompleteOf(before, last, specs, cfg) ==
        unspec |-> before.unspec \/ lc.unspec]
 Complete(args, specs, cfg, ddv) ==
   CompleteOf(Scan(Front(args), specs, cfg, ddv), args[Len(args)], specs, cfg)
+
+(* ---- what edit:complete-getopt (always GNU configuration) lets a caller observe of a completion:
+   the argument handler called (its position = number of non-option arguments before, and the
+   text), the option completer called (which option, the partial argument), or the option
+   candidates offered (their stems, in spec order). ---- *)
+RECURSIVE StemsFrom(_, _, _, _, _)
+StemsFrom(specs, k, wantShort, wantLong, prefix) ==
+  IF k > Len(specs) THEN <<>>
+  ELSE (IF wantShort /\ specs[k].short # NoShort THEN <<<<Dash, specs[k].short>>>> ELSE <<>>)
+       \o (IF wantLong /\ specs[k].long # <<>> /\ HasPrefix(specs[k].long, prefix) THEN <<DD \o specs[k].long>> ELSE <<>>)
+       \o StemsFrom(specs, k + 1, wantShort, wantLong, prefix)
+CompleteGetoptObs(comp, specs) ==
+  LET t == comp.ctx.type IN
+  IF t \in {"Argument", "OptionOrArgument"} THEN <<"arg", Len(comp.rest), comp.ctx.text>>
+  ELSE IF t = "OptionArgument"
+  THEN LET o == comp.ctx.opt[1] IN IF o.spec = 0 THEN <<"stems", <<>>>> ELSE <<"optarg", o.spec, o.arg>>
+  ELSE IF t = "AnyOption" THEN <<"stems", StemsFrom(specs, 1, TRUE, TRUE, <<>>)>>
+  ELSE IF t = "LongOption" THEN <<"stems", StemsFrom(specs, 1, FALSE, TRUE, comp.ctx.text)>>
+  ELSE <<"stems", StemsFrom(specs, 1, TRUE, FALSE, <<>>)>>
 
 (* ---- what every result must satisfy, also in Unspecified cases ---- *)
 RECURSIVE IsSubseqFrom(_, _, _, _)
